@@ -35,19 +35,20 @@ class VmStackList(TlbScheme):
     """
     @classmethod
     def serialize(cls, data: list) -> Cell:
-        builder = Builder()
-        if len(data) == 0:
-            return builder.end_cell()
-        value = data.pop()
-        builder.store_ref(cls.serialize(data))
-        return builder.store_cell(VmStackValue.serialize(value)).end_cell()
+        # built from the bottom of the stack upwards: a stack may be as deep as a chain of cells (1023),
+        # which is deeper than the interpreter's recursion limit allows a recursive walk to go
+        cell = Builder().end_cell()
+        for value in data:
+            cell = Builder().store_ref(cell).store_cell(VmStackValue.serialize(value)).end_cell()
+        return cell
 
     @classmethod
     def deserialize(cls, cell_slice: Slice, n_p_1: int):  # n_p_1 stands for n plus 1 or n + 1
-        if n_p_1 == 0:
-            return []
-        result = cls.deserialize(cell_slice.load_ref().begin_parse(), n_p_1 - 1)
-        return result + [VmStackValue.deserialize(cell_slice)]
+        slices = []
+        for _ in range(n_p_1):
+            slices.append(cell_slice)
+            cell_slice = cell_slice.load_ref().begin_parse()
+        return [VmStackValue.deserialize(s) for s in reversed(slices)]
 
 
 class VmStackValue(TlbScheme):
